@@ -18,9 +18,9 @@ from .. import units, guards, effects
 
 MANIFEST = {
     "level": "other",
-    "technique": "static analysis: symbolic evaluation with a floor-shift normal form (weekday), dominance rule on stdlib date calls (structured-control-flow guard analysis), polynomial extraction and exact comparison with the IAU 1982 GMST polynomial, algebraic identity for the equation of the equinoxes",
-    "text": "Weekday formula, the absence of proleptic-Gregorian arithmetic on Julian-calendar years, the GMST polynomial with its rate and modulo, the apparent-sidereal-time relation and the MJD offset are decided from the source for all inputs. Constancy over a civil day, day-of-year as a JDE difference and monotonicity of the fractional year involve the float date conversion and are not decided beyond these necessary conditions.",
-    "note": "Trusted oracles: IAU 1982 GMST expression, 1.00273790935, 2400000.5 (property text); stdlib datetime is proleptic Gregorian. Undecided: constancy of the weekday over a civil day, doy == JDE difference + 1, monotone fractional year.",
+    "technique": "static analysis: symbolic evaluation with a floor-shift normal form (weekday), dominance rule on stdlib date calls (structured-control-flow guard analysis), polynomial extraction and exact comparison with the IAU 1982 GMST polynomial, algebraic identity for the equation of the equinoxes, exact decision tables for the day-of-year recipes (month x leap flag, day number x leap flag, and against the library's own date -> JDE conversion on every class of year incl. 1582) and for the fractional-year denominator",
+    "text": "Weekday formula, the absence of proleptic-Gregorian arithmetic on Julian-calendar years, the GMST polynomial with its rate and modulo, the apparent-sidereal-time relation and the MJD offset are decided from the source for all inputs. Day of year is decided as an integer recipe: equal to the calendar table for every month and leap flag, inverse to doy2date, and equal to the JDE difference + 1 on every class of year including the change-over year 1582; the fractional year never reaches the next integer inside a year. Constancy of the weekday over a civil day involves the float date conversion and is not decided.",
+    "note": "Trusted oracles: IAU 1982 GMST expression, 1.00273790935, 2400000.5 (property text); stdlib datetime is proleptic Gregorian. Undecided: constancy of the weekday over a civil day; fractional parts of a day in doy.",
 }
 
 IAU1982 = [Fraction("24110.54841"), Fraction("8640184.812866"), Fraction("0.093104"), Fraction("-0.0000062")]   # seconds
